@@ -76,8 +76,11 @@ TMeta ==
   /\ metaSegs' = SeqToSet(Ev.segs)
   /\ UNCHANGED <<callIdx, ackedIdx, regs, segOf, building, faulted>>
 
+\* (the same holds for .managed.json: ManagedDirectory::wrap parses it when the index is opened, so a
+\* version renamed into place before its data is durable can leave an index that does not open)
 TMan ==
   /\ Ev.e = "man"
+  /\ ("synced" \in DOMAIN Ev => Ev.synced)
   /\ AWriteMan(SeqToSet(Ev.files))
   /\ Same
 
